@@ -155,8 +155,12 @@ func checkWire(c *vf.Ctx, m mode, ref *sshpkt.Codec, seq uint32, wire, payload [
 		return d
 	}
 	o, err := ref.Open(seq, wire)
+	if err == sshpkt.ErrMAC {
+		c.Violation("MAC/tag invalid under the independent model: "+fam, det(""))
+		return false
+	}
 	if err != nil {
-		c.Violation("independent decode fails ("+err.Error()+"): "+fam, det(""))
+		c.Violation("independent decode fails (length field / framing): "+fam, det(err.Error()))
 		return false
 	}
 	if o.Consumed != len(wire) {
